@@ -50,10 +50,15 @@ def run(tier):
         if H.header_index(prog, rep) < 4:
             rep.defer_broken("W9-index: fewer than 4 subscripts of the parsed-header array found")
         H.chunk_framing(prog, rep)
+        if H.premature_verdict(prog, rep) < 1:
+            rep.defer_broken("W11: no handler that waits for a fixed number of bytes found in http.c")
         # the buffered reader under the decoder: header blocks and chunks larger than its initial buffer must still fit
         # (window invariant, growth and compaction tests; relational rules shared with C07)
         from . import c07
         c07.reader_window(ir.Program([c07.RU], cfg), rep)
+        # ... and the buffered writer under the request: the space a write is copied into is inside its buffer (a request head or
+        # body larger than the writer's default buffer gets one of its own; rule shared with C07)
+        c07.reserve_room_rule(ir.Program([c07.WU], cfg), rep)
     n = len(configs)
     rep.require_min("W1-cursor", 4 * n)
     rep.require_min("W2-length", 3 * n)
